@@ -869,6 +869,13 @@ class Walker:
                 st.tri[tgt.id] = frozenset(['truthy'])
             elif tgt.id in self.assume_none and isinstance(node, (ast.Assign, ast.AnnAssign)) and isinstance(src, ast.Call):
                 st.tri[tgt.id] = frozenset(['none'])
+            elif isinstance(node, (ast.Assign, ast.AnnAssign)) and self._flag_test(src) is not None:
+                # flag = bool(<test>) / flag = <a and b> / flag = not <test>: decided where the test is decided on this path
+                t_ = self._flag_test(src)
+                ft = self.refine(st.copy(), t_, True)
+                ff = self.refine(st.copy(), t_, False)
+                if ft != ff:
+                    st.tri[tgt.id] = frozenset(['truthy']) if ft else frozenset(['falsy'])
             elif isinstance(node, (ast.Assign, ast.AnnAssign)) and isinstance(src, ast.Compare) and len(src.ops) == 1 \
                     and isinstance(src.left, ast.Name) and isinstance(src.comparators[0], ast.Constant) \
                     and src.comparators[0].value is None and isinstance(src.ops[0], (ast.Is, ast.IsNot)):
@@ -908,6 +915,21 @@ class Walker:
                 self.checkpoint(st, o.id, node, 'store')
         elif isinstance(tgt, ast.Starred):
             self.assign(st, tgt.value, Unk(fresh('star')), node)
+
+    @staticmethod
+    def _flag_test(src):
+        """the call-free test a flag is bound to: bool(T), `a and b` / `a or b`, `not T`"""
+        t = None
+        if isinstance(src, ast.Call) and isinstance(src.func, ast.Name) and src.func.id == 'bool' and len(src.args) == 1 \
+                and not src.keywords:
+            t = src.args[0]
+        elif isinstance(src, ast.BoolOp) or (isinstance(src, ast.UnaryOp) and isinstance(src.op, ast.Not)):
+            t = src
+        if t is None or not _call_free(t):
+            return None
+        if isinstance(src, ast.BoolOp) and any(isinstance(v, ast.Name) for v in src.values) and isinstance(src.op, ast.Or):
+            return None         # `flag = flag or E` has its own treatment above
+        return t
 
     def stmt(self, s, st):
         if isinstance(s, (ast.Assign, ast.AugAssign, ast.AnnAssign, ast.Expr, ast.Return)):
